@@ -10,8 +10,8 @@ mkdir -p "$tmp/repo"
 (cd "$tmp/repo" && patch -p1 -s < "$patch")
 cd "$(dirname "$0")/.."
 VERIF_REPO="$tmp/repo" ./check "$prop" --tier "$tier" > "$tmp/out.txt" 2>&1 && rc=0 || rc=$?
-grep -c "^VIOLATION" "$tmp/out.txt" | sed 's/^/violations: /'
-grep "^VIOLATION" "$tmp/out.txt" | sed 's/replay=[^ ]* *//' | cut -c1-220 | sort | uniq -c | sort -rn | head -5
+grep -cE "^(VIOLATION|NONCONFORMANCE)" "$tmp/out.txt" | sed 's/^/violations: /'
+grep -E "^(VIOLATION|NONCONFORMANCE)" "$tmp/out.txt" | sed 's/replay=[^ ]* *//' | cut -c1-220 | sort | uniq -c | sort -rn | head -5
 grep -E "^(DRIFT|KNOWN|MACHINERY)" "$tmp/out.txt" | cut -c1-200 | head -5
 tail -1 "$tmp/out.txt" | cut -c1-200
 echo "exit=$rc"
